@@ -160,7 +160,16 @@ def gen_spec(rng, ptype, for_schema=False):
         if rng.random() < 0.3:
             # advisory soft bounds (for sliders): narrower than, or instead of, the hard bounds; they constrain nothing
             kw['softbounds'] = rng.choice([(0, 1), (-1, 1), (2, 3), (None, 0), (5, None)])
-        s['gen'] = lambda r: inside(r, b, inc, integer)
+        def g_num(r):
+            if r.random() < 0.04:
+                # True and False are numbers too (bool is a subclass of int): accepted wherever 1 and 0 are
+                v = r.random() < 0.5
+                lo, hi = b if b is not None else (None, None)
+                ok = (lo is None or v > lo or (v == lo and inc[0])) and (hi is None or v < hi or (v == hi and inc[1]))
+                if ok:
+                    return v
+            return inside(r, b, inc, integer)
+        s['gen'] = g_num
     elif ptype == 'Magnitude':
         s['bounds'], s['incl'], s['integer'] = (0.0, 1.0), (True, True), False
         s['gen'] = lambda r: r.choice([0.0, 1.0, 0.5, r.random(), 1, 0, 5e-324])
